@@ -54,6 +54,9 @@ MUTANTS = [
     ("M80", "ace.py", "                for item in ace_o_.dstport.items:\n                    ace_o = ace_o_.copy()", "                for item in ace_o_.dstport.items[:2]:\n                    ace_o = ace_o_.copy()", "C19 C02"),
     ("M81", "acl.py", "                aces: LAce = ace_o.ungroup_ports()\n                _items.extend(aces)\n                continue\n            if isinstance(ace_o, AceGroup):", "                aces: LAce = ace_o.ungroup_ports()\n                _items = aces + _items\n                continue\n            if isinstance(ace_o, AceGroup):", "C19 C02"),
     ("M82", "ace.py", "        if len(aces) == 1:\n            return [self]\n", "", "C19 C16"),
+    ("M90", "address_base.py", "            if supernet not in ipnets:\n                ipnets.insert(0, supernet)\n            continue", "            ipnets.append(supernet)\n            continue", "C14"),
+    ("M91", "address_base.py", "        if [o for o in ipnets if ipnet.subnet_of(o)]:\n            continue", "        if [o for o in ipnets if ipnet.overlaps(o)]:\n            continue", "C14"),
+    ("M92", "address_base.py", "    return sorted(addresses_)", "    return addresses_", "C14"),
     ("M30", "port.py", "            return [ports[0] - 1] if ports else [65535]", "            return [ports[0]] if ports else [65535]", "C08"),
     ("M31", "port.py", "            return [ports[-1] + 1] if ports else [1]", "            return [ports[1] + 1] if ports else [1]", "C08"),
     ("M32", "port.py", "        ports = sorted(ports)\n        if operator == \"eq\":", "        if operator == \"eq\":", "C08"),
